@@ -7,12 +7,13 @@
     any time, every notifyFinish Deferred carrying ANY reaction = calls its callback/errback makes synchronously when
     it fires: finish, write, notifyFinish, and dropping the connection on a transport [sync] that reports the loss at
     once); [snd] of it is the event log, one list per operation.  The model has the repaired notifyFinish
-    (fixes/C21-notifyfinish-after-completion.patch).  EProcess i = request i handed to the application;
+    (fixes/C21-notifyfinish-after-completion.patch) and the repaired resumeProducing
+    (fixes/C21-resume-reading-after-transport-resume.patch).  EProcess i = request i handed to the application;
     EHead / EWrite / EEnd i = head, body write, terminator of response i on the transport (EEnd = response
     finished); ENotify i d / EFired i d ok = the d-th notifyFinish Deferred of request i handed out / fired with
     None (ok) or a failure; ELost i = connection loss delivered to request i. *)
 From Coq Require Import List NArith Bool Arith.
-From C21 Require Import Model ProofsSim ProofsLog ProofsLive.
+From C21 Require Import Model ProofsSim ProofsLog ProofsLive ProofsPause.
 Import ListNotations.
 
 (** every log is accepted by the protocol monitor of Model.v (one open request, wire bytes only for it and in
@@ -76,6 +77,18 @@ Theorem reading_resumed_when_idle : forall (eager : N) (sync : bool) (reqs : lis
 Proof. exact final_reading. Qed.
 Print Assumptions reading_resumed_when_idle.
 
+(** reading is paused only with a cause: whenever reading from the transport is paused and the transport is not asking
+    the channel to wait (its send buffer is not full), a request is being handled and more than the eager-read limit is
+    buffered behind it - a pause never outlives its reason, so a peer that goes away is noticed (next theorem) unless the
+    transport is full or the eager-read limit is exceeded.  (resumeProducing as repaired by
+    fixes/C21-resume-reading-after-transport-resume.patch.) *)
+Theorem reading_paused_only_with_cause : forall (eager : N) (sync : bool) (reqs : list reqspec) (tmo abt : option N) (ops : list top),
+  let s := t_st (k_t (fst (srun eager sync reqs tmo abt (sst0 tmo) ops))) in
+  s_waiting s = false -> net_paused false (concat (snd (srun eager sync reqs tmo abt (sst0 tmo) ops))) = true ->
+  s_handling s = true /\ (eager < s_recv s - s_cons s)%N.
+Proof. exact final_cause. Qed.
+Print Assumptions reading_paused_only_with_cause.
+
 (** the peer behind a socket: the transport's reading state is exactly what the pause / resume events of the log say;
     and at the end of every history in which reading is not paused, no byte the peer sent is waiting undelivered, and if
     the peer has closed the connection, connectionLost has been delivered (EGone is in the log) - so, by the theorem
@@ -123,5 +136,18 @@ Example pipeline_example :
       ENotify 0 1; EFired 0 1 true]; []; [ERaise]] /\
   snd (srun 16384 false [mkQ 37 true false [AFinish]; mkQ 37 true false []] (Some 5%N) (Some 3%N) (sst0 (Some 5%N))
             [Op (Data 50); Tick 4; Tick 1; Tick 3; Op Lose])
-  = [[EProcess 0; EHead 0; EEnd 0; ENetResume]; []; [EClose]; [EAbort]; [EGone]].
-Proof. vm_compute. split; reflexivity. Qed.
+  = [[EProcess 0; EHead 0; EEnd 0; ENetResume]; []; [EClose]; [EAbort]; [EGone]] /\
+  (* the send buffer fills and drains while a long poll is handled, then the client goes away: noticed at once *)
+  snd (srun 16384 false [mkQ 28 true false [ANotify []]] None None (sst0 None)
+            [Op (Data 28); Op TPause; Op TResume; Op Lose; Op (App 0 AWrite)])
+  = [[EProcess 0; ENotify 0 0]; []; [ENetResume]; [EGone; ELost 0; EFired 0 0 false]; []] /\
+  (* the client sends two requests and closes while the idle channel was asked to wait: nothing arrives until the
+     transport resumes, then the bytes and after them the close *)
+  snd (srun 16384 false [mkQ 28 true false [ANotify []]; mkQ 28 true false [AFinish]] None None (sst0 None)
+            [Op TPause; Op (Data 56); Op Lose; Op TResume])
+  = [[ENetPause]; []; []; [ENetResume; EProcess 0; ENotify 0 0; EGone; ELost 0; EFired 0 0 false]] /\
+  (* reading paused by the eager-read limit for request 0 is resumed when the transport drains while request 1 is handled *)
+  snd (srun 20 false [mkQ 28 true false []; mkQ 28 true false [ANotify []]; mkQ 28 true false []] None None (sst0 None)
+            [Op (Data 28); Op (Data 46); Op TPause; Op (App 0 AFinish); Op TResume; Op Lose])
+  = [[EProcess 0]; [ENetPause]; []; [EHead 0; EEnd 0; EProcess 1; ENotify 1 0]; [ENetResume]; [EGone; ELost 1; EFired 1 0 false]].
+Proof. vm_compute. repeat split; reflexivity. Qed.
